@@ -889,6 +889,14 @@ func main() {
 			if json.Unmarshal(b, &env) != nil || env.Case == nil || json.Unmarshal(env.Case, &cs) != nil {
 				infra("corpus file %s does not decode", f)
 			}
+			if cs.Kind == "lifecycle" {
+				var lc LifeCase
+				if json.Unmarshal(env.Case, &lc) != nil {
+					infra("corpus file %s does not decode", f)
+				}
+				replayLife(c, lc)
+				continue
+			}
 			c.Case(string(env.Case), true, "corpus", nil)
 			c.Trace()
 			runAny(c, cs, true)
